@@ -785,7 +785,7 @@ Lemma sess_step_inv : forall s e, is_reauth_b e = false -> sess_inv s ->
   sess_inv (fst (sess_step_live repaired s e)) /\
   (s_addr s <> None -> s_addr (fst (sess_step_live repaired s e)) <> None).
 Proof.
-  intros s e Hre Hinv. destruct e as [id wire| |w|w|w| |tid| | |aaa orc]; [| | | | | | | | |discriminate];
+  intros s e Hre Hinv. destruct e as [id wire| |w|w|w| |tid| | | |aaa orc]; [| | | | | | | | | |discriminate];
     cbn [sess_step_live];
     try (apply sess_fsm_only_inv; [exact Hinv|]; try reflexivity; apply ipcp_learn_assigned);
     try (split; [exact Hinv|auto]);
@@ -818,7 +818,7 @@ Lemma sess_step_idle : forall fl s e, is_reauth_b e = false -> sess_idle s ->
   sess_idle (fst (sess_step_live fl s e)) /\ snd (sess_step_live fl s e) = [].
 Proof.
   intros fl s e Hre (H1 & H2 & H3). unfold sess_idle.
-  destruct e as [id wire| |w|w|w| |tid| | |aaa orc]; [| | | | | | | | |discriminate]; cbn [sess_step_live];
+  destruct e as [id wire| |w|w|w| |tid| | | |aaa orc]; [| | | | | | | | | |discriminate]; cbn [sess_step_live];
     unfold sess_down, sess_fsm_only; rewrite ?H1, ?H2, ?H3; try (simpl; auto; fail);
     try (destruct (s_owner s); simpl; rewrite ?H1, ?H2, ?H3; simpl; auto; fail).
   unfold ipcp_input, ipcp_req_c. destruct (parse_wire wire); simpl; auto.
@@ -854,7 +854,7 @@ Definition sess_ok2 (s : sess) : Prop := sess_idle s \/ (sess_inv s /\ s_addr s 
 Lemma sess_step_ok2 : forall s e, no_conflict e = true -> sess_ok2 s -> sess_ok2 (fst (sess_step_live repaired s e)).
 Proof.
   intros s e Hnc H. destruct (is_reauth_b e) eqn:Hre.
-  - destruct e as [? ?| |?|?|?| |?| | |aaa orc]; try discriminate. simpl in Hnc. cbn [sess_step_live].
+  - destruct e as [? ?| |?|?|?| |?| | | |aaa orc]; try discriminate. simpl in Hnc. cbn [sess_step_live].
     assert (HD : sess_ok2 (fst (sess_down repaired s))).
     { pose proof (sess_down_ok s) as [A B].
       destruct H as [H|[H Hne]]; [left; auto|right; destruct (B H); auto]. }
@@ -909,7 +909,7 @@ Proof.
   assert (F : forall c' r, ic_assigned c' = ic_assigned (s_cfg s) ->
               ic_assigned (s_cfg (fst (sess_fsm_only fl s c' r))) = ic_assigned (s_cfg s)).
   { intros c' [a st'] Hc. unfold sess_fsm_only. destruct (fold_left _ _ _). simpl. exact Hc. }
-  destruct e as [id wire| |w|w|w| |tid| | |aaa orc]; [| | | | | | | | |discriminate]; cbn [sess_step_live];
+  destruct e as [id wire| |w|w|w| |tid| | | |aaa orc]; [| | | | | | | | | |discriminate]; cbn [sess_step_live];
     try (apply F; try reflexivity; apply ipcp_learn_assigned); try reflexivity;
     try (unfold sess_down; destruct (s_owner s); try reflexivity;
          pose proof (F (s_cfg s) (down_event (s_fsm s)) eq_refl) as X;
@@ -1547,6 +1547,8 @@ Lemma no_sca_rtr : forall st i, no_sca (fst (rtr_event st i)).
 Proof. intros st i id os. unfold rtr_event. split_matches; simpl; intuition congruence. Qed.
 Lemma no_sca_down : forall st, no_sca (fst (down_event st)).
 Proof. intros st id os. unfold down_event. split_matches; simpl; intuition congruence. Qed.
+Lemma no_sca_to_plus : forall st, no_sca (fst (to_plus st)).
+Proof. intros st id os. unfold to_plus. split_matches; simpl; intuition congruence. Qed.
 Lemma no_sca_up_open : forall st, no_sca (fst (up_open st)).
 Proof. intros st id os. unfold up_open. split_matches; simpl; intuition congruence. Qed.
 
@@ -1577,9 +1579,10 @@ Lemma sess_step_acks_only_assigned : forall s e id os,
                                   (o_type o = 3%N \/ o_type o = 129%N \/ o_type o = 131%N)).
 Proof.
   intros s e id os Hok Hin.
-  destruct e as [rid wire| |w|w|w| |tid| | |aaa orc]; cbn [sess_step_live] in Hin;
+  destruct e as [rid wire| |w|w|w| |tid| | | |aaa orc]; cbn [sess_step_live] in Hin;
     try (rewrite sess_fsm_only_acts in Hin; exfalso;
-         first [eapply no_sca_rca; exact Hin | eapply no_sca_rcn; exact Hin | eapply no_sca_rtr; exact Hin]).
+         first [eapply no_sca_rca; exact Hin | eapply no_sca_rcn; exact Hin | eapply no_sca_rtr; exact Hin
+               | eapply no_sca_to_plus; exact Hin]).
   - destruct Hok as [Hidle|Hinv].
     + destruct (sess_step_idle repaired s (EvReq rid wire) eq_refl Hidle) as [_ E].
       cbn [sess_step_live] in E. rewrite E in Hin. contradiction.
@@ -1632,6 +1635,8 @@ Lemma tr_rtr : forall st i, tr_ok st (rtr_event st i).
 Proof. intros st i. unfold rtr_event. tr_brute. Qed.
 Lemma tr_down : forall st, tr_ok st (down_event st).
 Proof. intros st. unfold down_event. tr_brute. Qed.
+Lemma tr_to_plus : forall st, tr_ok st (to_plus st).
+Proof. intros st. unfold to_plus. tr_brute. Qed.
 Lemma tr_rcr : forall st i r, tr_ok st (rcr_event st i r).
 Proof. intros st i r. unfold rcr_event, reply. tr_brute. Qed.
 Lemma tr_timeout : forall st, tr_ok st (if N.eqb st 5 then ([], 3%N) else ([], st)).
@@ -1689,8 +1694,8 @@ Qed.
 Lemma sess_step_fsm_ok : forall s e, sess_ok s -> fsm_ok s -> fsm_ok (fst (sess_step_live repaired s e)).
 Proof.
   intros s e Hok Hf.
-  destruct e as [rid wire| |w|w|w| |tid| | |aaa orc]; cbn [sess_step_live];
-    try (apply sess_fsm_only_fsm_ok; [exact Hf|]; first [apply tr_rca|apply tr_rcn|apply tr_rtr|apply tr_timeout]).
+  destruct e as [rid wire| |w|w|w| |tid| | | |aaa orc]; cbn [sess_step_live];
+    try (apply sess_fsm_only_fsm_ok; [exact Hf|]; first [apply tr_rca|apply tr_rcn|apply tr_rtr|apply tr_timeout|apply tr_to_plus]).
   - (* EvReq *)
     destruct Hf as (F1 & F2 & F3). unfold ipcp_input, ipcp_req_c.
     destruct (parse_wire wire) as [os| | |]; try (simpl; unfold fsm_ok; simpl; auto).
@@ -1797,7 +1802,7 @@ Proof.
       destruct HS as [H|[H|[H|[H|[]]]]]; rewrite <- H; unfold rcr_event, reply;
         (destruct (is_good r); [|destruct (has_rej r)]); simpl;
         try rewrite HL; (split; [try apply v6_build_same; reflexivity|auto 6]). }
-    destruct e as [m| |id wire orc|id orc|  |w|w]; cbn [v6sess_step].
+    destruct e as [m| |id wire orc|id orc|  |w|w| ]; cbn [v6sess_step].
     + left. simpl in HS. destruct HS as [H|[H|[H|[H|[]]]]]; rewrite <- H; simpl; auto.
     + right. simpl in HS. destruct HS as [H|[H|[H|[H|[]]]]]; rewrite <- H; reflexivity.
     + left. specialize (Hreq id wire orc). destruct (ipv6cp_input _ _ _ _ _ _) as [[a st'] p']. simpl. exact Hreq.
@@ -1812,12 +1817,16 @@ Proof.
       destruct HS as [H|[H|[H|[H|[]]]]]; rewrite <- H; simpl; auto 6.
     + left. simpl. simpl in HS. unfold v6_next.
       destruct HS as [H|[H|[H|[H|[]]]]]; rewrite <- H; simpl; auto 6.
+    + (* retransmission: rebuilt from the same object *)
+      left. simpl. simpl in HS. unfold v6_next.
+      destruct HS as [H|[H|[H|[H|[]]]]]; rewrite <- H; simpl; auto 6.
   - (* Starting *)
-    destruct e as [m| |id wire orc|id orc|  |w|w]; cbn [v6sess_step]; rewrite ?H1.
+    destruct e as [m| |id wire orc|id orc|  |w|w| ]; cbn [v6sess_step]; rewrite ?H1.
     + left. simpl. auto.
     + right. reflexivity.
     + right. unfold ipv6cp_input. rewrite ?H1. destruct (parse_wire wire); reflexivity.
     + right. unfold ipv6cp_input. rewrite ?H1. destruct (parse_wire _); reflexivity.
+    + right. reflexivity.
     + right. reflexivity.
     + right. reflexivity.
     + right. reflexivity.
@@ -1853,7 +1862,7 @@ Proof.
     { rewrite HL in Hx. unfold v6_build in Hx. destruct (negb _); [|contradiction].
       destruct Hx as [<-|[]]. reflexivity. }
     rewrite Hx'.
-    destruct e as [m'| |id wire orc|id orc| |w|w]; cbn [v6sess_step] in Hacts.
+    destruct e as [m'| |id wire orc|id orc| |w|w| ]; cbn [v6sess_step] in Hacts.
     + exfalso. destruct (down_event (vs_fsm s)) as [a1 st1] eqn:E1. destruct (up_open st1) as [a2 st2] eqn:E2.
       simpl in Hacts. subst acts. apply in_app_or in Hs. destruct Hs as [Hs|Hs].
       * pose proof (no_sca_down (vs_fsm s)) as X. rewrite E1 in X. eapply X; exact Hs.
@@ -1867,8 +1876,9 @@ Proof.
     + simpl in Hacts. subst acts. exfalso. eapply (proj1 (Hnosca _ _)); eauto.
     + simpl in Hacts. subst acts. exfalso. eapply (proj2 (Hnosca _ _)); eauto.
     + simpl in Hacts. subst acts. exfalso. eapply (proj2 (Hnosca _ _)); eauto.
+    + simpl in Hacts. subst acts. exfalso. eapply no_sca_to_plus; exact Hs.
   - (* Starting: nothing is acknowledged at all *)
-    exfalso. destruct e as [m'| |id wire orc|id orc| |w|w]; cbn [v6sess_step] in Hacts; rewrite ?H1 in Hacts;
+    exfalso. destruct e as [m'| |id wire orc|id orc| |w|w| ]; cbn [v6sess_step] in Hacts; rewrite ?H1 in Hacts;
       simpl in Hacts; subst acts; simpl in Hs; try contradiction;
       try (destruct Hs as [Hs|[]]; discriminate Hs);
       try (unfold ipv6cp_input in Hs; rewrite ?H1 in Hs; destruct (parse_wire _); simpl in Hs; contradiction).
@@ -2070,7 +2080,7 @@ Proof.
     destruct HS as [H|[H|[H|[H|[]]]]]; rewrite <- H; unfold rcr_event, reply;
       (destruct (is_good r); [|destruct (has_rej r)]); simpl;
       (split; [exact HB|split; [try exact HL; intros x Hx Ht; apply (lcp_build_magic _ x Hx Ht)|auto 6]]). }
-  destruct e as [|id wire|id| |w|w]; cbn [lsess_step].
+  destruct e as [|id wire|id| |w|w| ]; cbn [lsess_step].
   - (* SLStart on a started LCP: nothing *)
     unfold l_inv, l_next. simpl in HS.
     destruct HS as [H|[H|[H|[H|[]]]]]; rewrite <- H; simpl; (split; [exact HB|split; [exact HL|auto 6]]).
@@ -2094,6 +2104,10 @@ Proof.
   - unfold l_inv, l_next. simpl. simpl in HS.
     destruct HS as [H|[H|[H|[H|[]]]]]; rewrite <- H; simpl;
       (split; [exact HB|split; [intros x Hx Ht; apply (lcp_build_magic _ x Hx Ht)|auto 6]]).
+  - (* retransmission *)
+    unfold l_inv, l_next. simpl. simpl in HS.
+    destruct HS as [H|[H|[H|[H|[]]]]]; rewrite <- H; simpl;
+      (split; [exact HB|split; [try exact HL; intros x Hx Ht; apply (lcp_build_magic _ x Hx Ht)|auto 6]]).
 Qed.
 
 Lemma lsess_run_inv : forall es s, (forall e, In e es -> lev_ok e) -> l_inv s -> l_inv (lsess_run repaired s es).
@@ -2115,7 +2129,7 @@ Proof.
   { intros id wire a st' p' Hin Ha.
     destruct (lcp_wire_ack _ _ _ _ _ _ _ _ _ _ Hin Ha) as (_ & _ & _ & M & _).
     apply (M Hnz o Ho Hto). rewrite Heq. apply num32_put32. exact HB. }
-  destruct e as [|id wire|id| |w|w]; cbn [lsess_step] in Hacts.
+  destruct e as [|id wire|id| |w|w| ]; cbn [lsess_step] in Hacts.
   - simpl in Hacts. subst acts. eapply no_sca_up_open; exact Hs.
   - destruct (lcp_input repaired (lo_magic (ls_obj s)) (ls_fsm s) (lo_peer (ls_obj s)) id wire) as [[a st'] p'] eqn:E.
     simpl in Hacts. subst acts. eapply Hreq; eauto.
@@ -2124,6 +2138,7 @@ Proof.
   - simpl in Hacts. subst acts. eapply no_sca_rca; exact Hs.
   - simpl in Hacts. subst acts. eapply no_sca_rcn; exact Hs.
   - simpl in Hacts. subst acts. eapply no_sca_rcn; exact Hs.
+  - simpl in Hacts. subst acts. eapply no_sca_to_plus; exact Hs.
 Qed.
 
 Lemma l_wire_identity : forall s0 es e acts id' os,
@@ -2171,4 +2186,22 @@ Lemma ipcp_req_c_good : forall c p os, is_good (fst (ipcp_req c p os)) = true ->
 Proof.
   intros c p os G. unfold ipcp_req_c. destruct (ipcp_req c p os) as [r p']. simpl in *.
   unfold is_good in G. unfold is_good0. rewrite G. rewrite andb_false_r. reflexivity.
+Qed.
+
+(* ------------------------------------------------------------------ retransmissions announce the same identity *)
+Lemma v6_retransmit_same : forall s, vs_last s = v6_build (vs_obj s) ->
+  vs_obj (fst (v6sess_step s V6Timeout)) = vs_obj s /\
+  vs_last (fst (v6sess_step s V6Timeout)) = vs_last s.
+Proof.
+  intros s HL. cbn [v6sess_step]. simpl. split; [reflexivity|]. unfold v6_next.
+  destruct (existsb _ _); [symmetry; exact HL|reflexivity].
+Qed.
+
+Lemma lcp_retransmit_same_magic : forall s, l_inv s ->
+  ls_obj (fst (lsess_step repaired s SLTimeout)) = ls_obj s /\
+  forall x, In x (ls_last (fst (lsess_step repaired s SLTimeout))) -> o_type x = 5%N ->
+    o_data x = put32b (lo_magic (ls_obj s)).
+Proof.
+  intros s Hi. pose proof (lsess_step_inv s SLTimeout I Hi) as (_ & HL & _).
+  cbn [lsess_step] in *. simpl in *. split; [reflexivity|]. intros x Hx Ht. apply (proj1 (HL x Hx Ht)).
 Qed.
